@@ -5,6 +5,7 @@
 import Yld.Model.Api
 import Yld.Model.Parser
 import Yld.Model.Emit
+import Yld.Model.Cli
 namespace Yld
 open Sexp
 
@@ -145,6 +146,8 @@ def handle : Sexp → Sexp
           | .list (.sym "ok" :: rest) => .list (.sym "ok" :: .sym (if na then "nonascii" else "ascii") :: rest)
           | e => e
       | .error e => sexpOfFrontErr e
+  | .list [.sym "commentlines", .str msg] => .str (String.ofList (commentLines msg.toList))
+  | .list [.sym "unquote", .str raw] => .str (unquote raw)
   | .list [.sym "recognise", .str text] => .sym (if recognise text then "yes" else "no")
   | .list [.sym "lex", .str text] =>
       match lex text with
